@@ -9,7 +9,7 @@ def sh(cmd, cwd=None, timeout=3600):
     p=subprocess.run(cmd, shell=True, cwd=cwd, env=ENV, capture_output=True, text=True, timeout=timeout)
     return p.returncode, p.stdout+p.stderr
 sh('rm -rf %s %s && git clone -q /repo %s && rsync -a --exclude .git --exclude gvc --exclude seeded /verif/ %s/'%(CLONE,VC,CLONE,VC))
-props=[c['property'] for c in json.load(open('/verif/MANIFEST.json'))['checks']]
+props=[c['property_id'] for c in json.load(open('/verif/MANIFEST.json'))['checks']]
 names=sys.argv[1:] or sorted(os.path.basename(p) for p in glob.glob('/verif/benign/R*'))
 res={}
 for n in names:
